@@ -186,15 +186,20 @@ func capDialogue(wanted, adv []string, saslKind int, reply int, outcome string, 
 // link, connect again, advertise something else; the CAP lines of the second connection are judged by the same Spec
 // predicate as everywhere (`Spec.Caps.okAfterLS`, given only the second connection's advertisement).
 func c19Reconnect(c *Ctx) {
-	type variant struct{ wanted, first, second []string }
+	type variant struct {
+		wanted, first, second []string
+		unanswered            bool // the first connection drops after the client's CAP REQ, before any ACK / NAK
+	}
 	vs := []variant{
-		{[]string{"a", "b", "c"}, []string{"a", "b", "c", "x"}, []string{"a"}},
-		{[]string{"a", "b"}, []string{"a", "b"}, nil},
-		{[]string{"a", "b"}, []string{"b"}, []string{"a", "y"}},
-		{[]string{"a"}, []string{"a", "t"}, []string{"t"}},
+		{[]string{"a", "b", "c"}, []string{"a", "b", "c", "x"}, []string{"a"}, false},
+		{[]string{"a", "b"}, []string{"a", "b"}, nil, false},
+		{[]string{"a", "b"}, []string{"b"}, []string{"a", "y"}, false},
+		{[]string{"a"}, []string{"a", "t"}, []string{"t"}, false},
+		{[]string{"a", "b"}, []string{"a", "b"}, []string{"a", "b"}, true},
+		{[]string{"a"}, []string{"a"}, []string{"a", "t"}, true},
 	}
 	for vi, v := range vs {
-		if c.Quick() && vi >= 2 && c.R.P(1, 2) {
+		if c.Quick() && vi >= 2 && vi < 4 && c.R.P(1, 2) {
 			continue
 		}
 		desc := fmt.Sprintf("cap negotiation on a second connection: wanted=%v, first server advertises %v (and acknowledges), second server advertises %v", v.wanted, v.first, v.second)
@@ -213,10 +218,15 @@ func c19Reconnect(c *Ctx) {
 				req = append(req, strings.Fields(strings.TrimPrefix(l, "CAP REQ :"))...)
 			}
 		}
-		if len(req) > 0 {
+		if len(req) > 0 && !v.unanswered {
 			sess.srv.SendLine(":irc.test CAP * ACK :" + strings.Join(req, " "))
 		}
-		sess.srv.SendLine(":irc.test 001 me :Welcome me!ident@host")
+		if !v.unanswered {
+			sess.srv.SendLine(":irc.test 001 me :Welcome me!ident@host")
+		} else {
+			desc += " - but the first link drops before the request is answered"
+			rp["first_request_unanswered"] = true
+		}
 		sess.sync(5 * time.Second)
 		sess.srv.EOF()
 		if !waitFor(func() bool { return !sess.conn.Connected() }, 5*time.Second) {
@@ -251,6 +261,28 @@ func c19Reconnect(c *Ctx) {
 				out = append(out, l)
 			}
 		}
+		// the dialogue of the second connection runs to its end like any other: the request is acknowledged, and the client
+		// (no SASL here) closes the negotiation
+		endOK, after := true, []string(nil)
+		if v.unanswered {
+			var req2 []string
+			for _, l := range out {
+				if strings.HasPrefix(l, "CAP REQ :") {
+					req2 = append(req2, strings.Fields(strings.TrimPrefix(l, "CAP REQ :"))...)
+				}
+			}
+			if len(req2) > 0 {
+				before := len(srv2.Lines())
+				sess.srv.SendLine(":irc.test CAP * ACK :" + strings.Join(req2, " "))
+				sess.sync(5 * time.Second)
+				for _, l := range srv2.Lines()[before:] {
+					if strings.HasPrefix(l, "CAP ") || strings.HasPrefix(l, "AUTHENTICATE") {
+						after = append(after, l)
+					}
+				}
+				endOK = len(after) == 1 && after[0] == "CAP END"
+			}
+		}
 		var supportedStale []string
 		for _, x := range v.first {
 			has := false
@@ -266,6 +298,9 @@ func c19Reconnect(c *Ctx) {
 		cs := Case{Desc: desc + fmt.Sprintf(": client sent %q", out), Spec: []string{fmt.Sprintf("spec19ls %s 0 %s %s", drv.L(v.wanted), drv.L(v.second), drv.L(out))},
 			Tag: "reconnect", Key: desc, Sig: "C19-caps-survive-reconnect", Replay: rp}
 		c.RunCases([]Case{cs})
+		if !endOK {
+			c.SpecFail("spec", desc, "", fmt.Sprintf("on the second connection the acknowledgement of the request was answered with %q ; the negotiation ends with exactly one CAP END", after), rp)
+		}
 		if len(heldEarly) > 0 {
 			c.SpecFail("spec", desc, "C19-caps-survive-reconnect", fmt.Sprintf("on the new connection, before its server has acknowledged anything, HasCapability is true for %v", heldEarly), rp)
 		}
